@@ -68,7 +68,7 @@ struct HSched : public ::babylon::SchedInterface {
   // the library polls every 1 ms (full queue in push, join); poll faster. Timing only.
   static void usleep(useconds_t us) noexcept {
     if (tl_in_join) { VF_COUNT("obs:join_poll"); } else { note_blocked(); }
-    ::usleep(us > 50 ? 50 : us);
+    ::usleep(us > 200 ? 200 : us);
   }
 };
 using Queue = ::babylon::ConcurrentExecutionQueue<Item, HSched>;
@@ -350,6 +350,8 @@ void run_episode(Episode ep) {
   double t_begin = vf::now_s();
   World w;
   w.ep = ep;
+  // drawn before any thread of the episode exists (pool workers pass through vf::perturb and read the policy)
+  w.ep.policy = vf::draw_policy(r, kStallPoints, 60, 6000);
   // executor
   ::babylon::Executor* base = nullptr;
   if (ep.base == 0) base = &::babylon::InplaceExecutor::instance();
@@ -374,7 +376,6 @@ void run_episode(Episode ep) {
   World* wp = &w;
   w.q->initialize(ep.capacity, *w.exec, [wp](QIter b, QIter e) { consume(*wp, b, e); });
   w.ep.capacity = w.q->capacity();
-  w.ep.policy = vf::draw_policy(r, kStallPoints, 60, 6000);
   g_world = &w;
   vf::watchdog().set_context(w.ep.describe());
   pin_some_cpus(ep.pin, r);
